@@ -61,7 +61,8 @@ STAGES = {
             S("structured", "^TestC03$", quick=1500, thorough=10000, shards=(4, 16)),
             S("raw", "^TestC03Raw$", quick=8000, thorough=60000, shards=(4, 16)),
             S("fuzz", "^$", tiers=("thorough",), shards=(1, 1), fuzz={"target": "^FuzzC03$", "time": {"quick": "10s", "thorough": "180s"}}, timeout=("10m", "30m"))],
-    "C04": [S("cuts", "^TestC04$", quick=40, thorough=60, shards=(6, 16), timeout=("15m", "120m"), shrinktime="60s")],
+    "C04": [S("cuts", "^TestC04$", quick=40, thorough=60, shards=(6, 16), timeout=("15m", "120m"), shrinktime="60s"),
+            S("big", "^TestC04Big$", quick=25, thorough=400, shards=(6, 16), timeout=("15m", "120m"), shrinktime="60s")],
     "C05": [S("regress", "^TestC05Regress$"),
             S("concurrent", "^TestC05$", quick=150, thorough=2500, shards=(6, 16), timeout=("15m", "90m")),
             S("concurrent-race", "^TestC05$", quick=40, thorough=800, shards=(4, 16), race=True, timeout=("15m", "90m"))],
